@@ -253,6 +253,11 @@ example : Wf tokCodec sol1 3 2 where
       subst this
       exact ⟨by decide, ⟨by decide, by decide, by decide⟩⟩
 
+/-- hypotheses of `C05_nonfinite_rejected` / the ranges of the `C05_gen_*` theorems are inhabited by the cases that matter -/
+example : str "inf" ∈ nonfiniteToks ∧ str "-nan" ∈ nonfiniteToks := by decide
+example : MpVerif.Gen.SolGuards.w_kind_mask 92 = .ret 12 ∧ MpVerif.Gen.SolGuards.w_is_output 92 = .ret 1 ∧
+    MpVerif.Gen.SolGuards.w_is_output 44 = .ret 0 := by decide
+
 /-! non-vacuity of the hypotheses -/
 example : GoodNum (str "-2.25e-07") := ⟨by decide, by decide, by decide⟩
 example : GoodNum (str "1.797693134862316e+308") := ⟨by decide, by decide, by decide⟩
